@@ -390,13 +390,18 @@ fn c08_judge(prog: &Prog, out: &ConcOut) -> Result<(bool, Vec<(&'static str, u64
 
 pub const C08: ConcCheck = ConcCheck { asked: "C08", sub: "rmw", mix: Mix::Compute, max_threads: 3, max_ops: 3, opts: C01.opts, judge: c08_judge, mk_probe: NO_PROBE };
 
+pub const C08T: ConcCheck = ConcCheck { sub: "rmw-treemove", mix: Mix::TreeMove, ..C08 };
 fn c08_shard(ctx: &Ctx, out: &mut ShardOut) {
     let pool = Pool::new();
     let n = ctx.share(ctx.by_tier(1500, 20_000)) as u32;
     C08.run(ctx, &pool, 8, n, &budget_for(ctx.tier, ctx.shard_seed(78)), out);
+    C08T.run(ctx, &pool, 9, ctx.share(ctx.by_tier(320, 5_000)) as u32, &budget_for(ctx.tier, ctx.shard_seed(79)), out);
 }
-fn c08_replay(_sub: &str, case: &Value) -> Result<(), CaseFail> {
+fn c08_replay(sub: &str, case: &Value) -> Result<(), CaseFail> {
     let pool = Pool::new();
+    if sub == "rmw-treemove" {
+        return C08T.replay(&pool, case, &budget_for(Tier::Thorough, 1));
+    }
     C08.replay(&pool, case, &budget_for(Tier::Thorough, 1))
 }
 
